@@ -500,3 +500,9 @@ def r7(ctx):
                f"another thread calls close() right before {key.split(':', 2)[-1]}: callbacks {bad[0][3]}, on_error({bad[0][2]}), result {bad[0][1].kind} {bad[0][1].value!r} -- "
                f"the application's own close() must end the run with one on_close, no error and result False",
                bad[0][1].run.memo.get("@preempted") if bad else loc, {"path": path_text(bad[0][1], 10)} if bad else None)
+
+
+@rule("R-C14-8", min_instances=3, title="the transport is gone after the run: WebSocket.close(), which teardown calls, releases the socket from every state (also after the server's close frame was already answered)")
+def r8(ctx):
+    from .c08 import r5 as close_releases_transport
+    close_releases_transport(ctx)
